@@ -206,5 +206,33 @@ def rule_u5(repo):
     return res
 
 
+def rule_u6(repo):
+    """Inference instantiates a constant from the type the *current* theory declares for it
+    (theory.thy.get_term_sig).  Everything a Theory answers must come from its own tables: a mutable
+    container in the class body of Theory (or of the context classes) is one object shared by every theory
+    of the process, so a table filled under one theory would answer for the next."""
+    from .. import persist
+    res = RuleResult('C08.U6', 'the signature tables consulted by inference belong to one theory object: no class-level container of the kernel classes is filled at run time', floor=8)
+    for rel in ('kernel/theory.py', 'kernel/type.py', 'kernel/term.py', 'logic/context.py', 'kernel/extension.py'):
+        m = repo.module(rel)
+        for c in m.classes.values():
+            conts = persist.class_containers(c.node)
+            bad = []
+            for name in sorted(conts):
+                init = c.methods.get('__init__')
+                if init is not None and any(isinstance(n, ast.Assign) and any(path_of(t) == 'self.' + name for t in n.targets)
+                                            for n in ast.walk(init.node)):
+                    continue      # every instance gets its own
+                for meth in c.methods.values():
+                    muts = persist.mutations_of(meth.node, lambda e, name=name: path_of(e) in ('self.' + name, 'cls.' + name, c.name + '.' + name))
+                    if muts:
+                        bad.append('`%s.%s` (class body, line %d) is filled in %s at line %d' % (c.name, name, conts[name].lineno, meth.name, muts[0][0]))
+            res.add('%s :: %s :: per-object-tables' % (rel, c.name), not bad,
+                    'no class-level container is modified through an instance' if not bad else
+                    '; '.join(bad) + ' -- the table is shared by all %s objects: after one theory declared c :: nat => nat, a second theory that '
+                    'declares c at another type gets the first answer' % c.name, c.loc, nontrivial=bool(conts))
+    return res
+
+
 def rules(repo):
-    return [rule_u1(repo), rule_u2(repo), rule_u3(repo), rule_u4(repo), rule_u5(repo)]
+    return [rule_u1(repo), rule_u2(repo), rule_u3(repo), rule_u4(repo), rule_u5(repo), rule_u6(repo)]
